@@ -13,7 +13,7 @@ def extra(totals):
 
 
 def run(ctx):
-    return rotcheck.run_property(ctx, "C06", PROFILE, quick=300, thorough=30000,
+    return rotcheck.run_property(ctx, "C06", PROFILE, quick=300, thorough=12000,
                                  nontrivial=lambda a: a.stats["rotations"] >= 3 and (a.stats["retention_removals"] >= 1 or a.stats["max_rotated"] >= 3),
                                  rule="non-trivial = >= 3 rotations and (>= 1 retention removal or >= 3 rotated files kept)",
                                  extra_cov=extra)
